@@ -856,6 +856,9 @@ type c14LocalCase struct {
 	Programs    []struct {
 		Shards    int  `json:"shards"`
 		Exclusive bool `json:"exclusive"`
+		// Reduce: the program is a Reduce whose combiner is gauged (every key once per producer shard, so
+		// that the combining happens while the consumer tasks gather their shuffle input)
+		Reduce bool `json:"reduce,omitempty"`
 	} `json:"programs"`
 }
 
@@ -913,6 +916,15 @@ func c14RunLocal(c c14LocalCase) (err error, g progen.Gauge) {
 			}
 		}
 		spec := &progen.Spec{Nodes: []progen.Node{src, {Op: "map", In: []int{0}, Fn: &progen.Fn{Exprs: []progen.Expr{{K: "col", I: 0}}}}}}
+		if p.Reduce {
+			rsrc := progen.Node{Op: "readerfunc", Cols: []progen.Col{progen.TInt, progen.TInt}, NShard: p.Shards, ShardRows: make([][][]int, p.Shards)}
+			for s := 0; s < p.Shards; s++ {
+				for r := 0; r < 24; r++ {
+					rsrc.ShardRows[s] = append(rsrc.ShardRows[s], []int{r, s})
+				}
+			}
+			spec = &progen.Spec{Nodes: []progen.Node{rsrc, {Op: "reduce", In: []int{0}, Fn: &progen.Fn{Gauge: true, SleepUs: 150}}}}
+		}
 		if e := progen.Annotate(spec); e != nil {
 			return e, g
 		}
@@ -956,7 +968,7 @@ const c14Local = "TestVerifC14LocalLimiter"
 
 func TestVerifC14LocalLimiter(t *testing.T) {
 	rec := vt.New("C14", "local-limiter",
-		"rapid: 1..4 programs (ReaderFunc sources of 1..8 shards, some with the Exclusive pragma, each read taking ~0.3 ms) run concurrently in one local session with parallelism 1..6, in a quarter of the cases after two runs in the same session that fail (reduce combiner panicking in the producing task and in the task gathering the shuffle), whose procs must have been returned; the generated reader functions maintain a gauge of concurrently active tasks; oracle: the gauge never exceeds the configured parallelism, no task starts while an exclusive task is active and an exclusive task starts only when nothing else runs; non-trivial = more tasks than the parallelism or an exclusive program present; distinct by case hash")
+		"rapid: 1..4 programs (ReaderFunc sources of 1..8 shards, some with the Exclusive pragma, each read taking ~0.3 ms) run concurrently in one local session with parallelism 1..6, in a quarter of the cases after two runs in the same session that fail (reduce combiner panicking in the producing task and in the task gathering the shuffle), whose procs must have been returned; the generated reader functions maintain a gauge of concurrently active tasks; a third of the non-exclusive programs are Reduces whose combiner calls are gauged as well (a task that is combining its shuffle input is a running task); oracle: the gauge never exceeds the configured parallelism, no task starts while an exclusive task is active and an exclusive task starts only when nothing else runs; non-trivial = more tasks than the parallelism or an exclusive program present; distinct by case hash")
 	docs, only := vt.Replays(c14Local)
 	for _, d := range docs {
 		var c c14LocalCase
@@ -983,9 +995,13 @@ func TestVerifC14LocalLimiter(t *testing.T) {
 			var p struct {
 				Shards    int  `json:"shards"`
 				Exclusive bool `json:"exclusive"`
+				Reduce    bool `json:"reduce,omitempty"`
 			}
 			p.Shards = rapid.IntRange(1, 8).Draw(rt, "shards")
 			p.Exclusive = rapid.IntRange(0, 2).Draw(rt, "excl") == 0
+			if !p.Exclusive && p.Shards >= 2 {
+				p.Reduce = rapid.IntRange(0, 2).Draw(rt, "reduce") == 0
+			}
 			c.Programs = append(c.Programs, p)
 			tasks += p.Shards
 			excl = excl || p.Exclusive
